@@ -131,4 +131,7 @@ def setSuspended (self : St V) (b : Bool) : St V := { self with suspended := b }
 /-- `defn.assign_all(...)` of a leaf definition: store the setting -/
 def defnAssign (self : St V) (k : Nat) (v : V) : St V := { self with setting := upd self.setting k v }
 
+/-- `defn.update_from_calculator(calc)` of a leaf definition: its setting takes the calculator's value -/
+def defnFromCalc (self : St V) (k : Nat) (calc : Nat → V) : St V := { self with setting := upd self.setting k (calc k) }
+
 end CogentModel.Ctl.Prim
